@@ -4,6 +4,7 @@ import (
 	"encoding/hex"
 	"mime"
 	"net/http"
+	"net/http/httptest"
 	"net/textproto"
 	"net/url"
 	"strconv"
@@ -55,7 +56,42 @@ func genHVal(r *hx.Rand) string {
 	return hx.Pick(r, hdrVals)
 }
 
+const readBackKey = "\x00read-back"
+
+// cookieReadBack plays the client: it takes the cookie of the LAST Set-Cookie line, sends it back in a
+// new request and returns what GetCookie(name) reads there (nothing on error or when no line was set).
+func cookieReadBack(lines []string, name string) []string {
+	if len(lines) == 0 {
+		return nil
+	}
+	cs := (&http.Response{Header: http.Header{"Set-Cookie": lines[len(lines)-1:]}}).Cookies()
+	if len(cs) == 0 {
+		return nil
+	}
+	req := httptest.NewRequest(http.MethodGet, "/c19c", nil)
+	req.AddCookie(&http.Cookie{Name: cs[0].Name, Value: cs[0].Value})
+	var out []string
+	cookieScript = func(c *router.Context) {
+		if v, err := c.GetCookie(name); err == nil {
+			out = []string{v}
+		}
+	}
+	rt.ServeHTTP(httptest.NewRecorder(), req)
+	return out
+}
+
+var cookieScript func(c *router.Context)
+
+func init() {
+	rt.GET("/c19c", func(c *router.Context) { cookieScript(c) })
+}
+
+var cookieVals = []string{"abc", "a b", "3q2+7w==", "C++", "a+b c", "%41", "100%", "é", "a;b", "x=y", "\"q\"", "", "a\r\nb", "~._-", "/p?x=1&y=2", "\x00\xff"}
+
 func genHdrOp(r *hx.Rand) hdrOp {
+	if r.Chance(1, 12) {
+		return hdrOp{Op: "CookieRT", A: hexs(hx.Pick(r, []string{"sid", "theme", "a b", "", "tok"}), hx.Pick(r, cookieVals))}
+	}
 	switch r.Intn(16) {
 	case 0, 1, 2:
 		return hdrOp{Op: "Header", A: hexs(hx.Pick(r, hdrKeys), genHVal(r))}
@@ -150,6 +186,10 @@ func hdrShip(o hdrOp) (ship []string, keys []string) {
 		ck := &http.Cookie{Name: a[0], Value: url.QueryEscape(a[1]), MaxAge: 60, Path: a[2], Domain: a[3], Secure: true, HttpOnly: true}
 		ship = []string{ck.String()}
 		keys = []string{"Set-Cookie"}
+	case "CookieRT":
+		ck := &http.Cookie{Name: a[0], Value: url.QueryEscape(a[1]), MaxAge: 60, Path: "/", HttpOnly: true}
+		ship = []string{ck.String()}
+		keys = []string{"Set-Cookie", readBackKey}
 	case "Data":
 		keys = []string{"Content-Type"}
 	case "Reader":
@@ -190,6 +230,8 @@ func doHdrOp(c *router.Context, o hdrOp) (panicked bool) {
 		c.MethodNotAllowed(append([]string(nil), a...))
 	case "SetCookie":
 		c.SetCookie(a[0], a[1], 60, a[2], a[3], true, true)
+	case "CookieRT":
+		c.SetCookie(a[0], a[1], 60, "/", "", false, true)
 	case "Data":
 		_ = c.Data(o.Code, a[0], []byte("x"))
 	case "Reader":
@@ -222,6 +264,10 @@ func emitHdr(id string, k *hdrCase, st *hx.Stats) string {
 		for i, o := range k.Ops {
 			obs[i].p = doHdrOp(c, o)
 			for _, key := range allKeys[i] {
+				if key == readBackKey {
+					obs[i].vals = append(obs[i].vals, cookieReadBack(c.Response.Header()["Set-Cookie"], o.args()[0]))
+					continue
+				}
 				obs[i].vals = append(obs[i].vals, append([]string(nil), c.Response.Header()[key]...))
 			}
 		}
